@@ -377,6 +377,33 @@ func init() {
 		return Tuple{r.newFileValue(&fsHandle{name: name, f: f}), Iface{}}
 	}, "os.Create")
 	reg(func(r *Run, fr *frame, args []Value) Value {
+		dir, pat := args[0].(string), args[1].(string)
+		if dir == "" {
+			dir = "/tmp"
+		}
+		r.tmpSerial++
+		name := filepath.Join(dir, strings.Replace(pat, "*", fmt.Sprintf("%06d", r.tmpSerial), 1))
+		r.fsOp("createtemp " + name)
+		if r.ioFault(fr, "create") {
+			return Tuple{(*Value)(nil), r.errResult(fr, "createtemp "+name+": injected I/O error")}
+		}
+		f := r.fs().get(name)
+		f.exists, f.isDir, f.content = true, false, nil
+		f.created++
+		f.open++
+		return Tuple{r.newFileValue(&fsHandle{name: name, f: f}), Iface{}}
+	}, "os.CreateTemp")
+	reg(func(r *Run, fr *frame, args []Value) Value {
+		name := args[0].(string)
+		f := r.fs().files[filepath.Clean(name)]
+		if f == nil || !f.exists {
+			return Tuple{Slice(nil), r.notExistErr(fr, name)}
+		}
+		out := make(Slice, len(f.content))
+		copy(out, f.content)
+		return Tuple{out, Iface{}}
+	}, "os.ReadFile")
+	reg(func(r *Run, fr *frame, args []Value) Value {
 		name := args[0].(string)
 		r.fsOp("open " + name)
 		f := r.fs().files[filepath.Clean(name)]
